@@ -887,6 +887,46 @@ fn check_ber_long(which: &u8, p: &mut Probe) -> Check {
     Ok(())
 }
 
+/// an exit status of 0 says that the matrix was printed: when the standard output cannot be written
+/// (a full device), the code-generation subcommands must not report success
+fn full_stdout_cases(_t: Tier) -> Vec<u8> {
+    vec![0, 1, 2, 3]
+}
+
+fn check_full_stdout(which: &u8, p: &mut Probe) -> Check {
+    if !std::path::Path::new("/dev/full").exists() {
+        p.class("no-dev-full");
+        return Ok(());
+    }
+    let args = match which {
+        0 => sv(&["dvbs2", "--rate", "1/2", "--short"]),
+        1 => sv(&["ccsds", "--rate", "1/2", "--block-size", "1024"]),
+        2 => sv(&["ccsds-c2"]),
+        _ => sv(&["peg", "4", "8", "2", "1"]),
+    };
+    // the same arguments with a working standard output succeed
+    let ok = run_cli(&args, Duration::from_secs(120))?;
+    expect_success(&ok, &format!("{args:?}"))?;
+    let sink = std::fs::OpenOptions::new().write(true).open("/dev/full").map_err(|e| Fail::new(INCONCLUSIVE, format!("cannot open /dev/full: {e}")))?;
+    let mut child = Command::new(bin()?).args(&args).stdin(Stdio::null()).stdout(sink).stderr(Stdio::null()).spawn().map_err(|e| Fail::new(INCONCLUSIVE, format!("cannot start the binary: {e}")))?;
+    let start = Instant::now();
+    let status = loop {
+        match child.try_wait() {
+            Ok(Some(st)) => break st,
+            Ok(None) if start.elapsed() > Duration::from_secs(120) => {
+                let _ = child.kill();
+                let _ = child.wait();
+                return Err(Fail::new(INCONCLUSIVE, format!("{args:?} > /dev/full exceeded the watchdog")));
+            }
+            Ok(None) => std::thread::sleep(Duration::from_millis(2)),
+            Err(e) => return Err(Fail::new(INCONCLUSIVE, format!("wait failed: {e}"))),
+        }
+    };
+    ensure!(status.code() != Some(0), "success-without-output", "{args:?} with the standard output on a full device (/dev/full): exit status 0 although the matrix ({} bytes with a working output) could not be written", ok.stdout.len());
+    p.nontrivial();
+    Ok(())
+}
+
 /// hard decisions only (--max-iter 0) at 4 and 5 dB on a 4 x 12 code with an outer-code threshold of
 /// 1: frames with exactly one wrong systematic bit are 7 to 13 times as frequent as frames with two
 /// or more, so the LDPC-only statistics (which count them as frame errors) and the outer-code
@@ -894,7 +934,7 @@ fn check_ber_long(which: &u8, p: &mut Probe) -> Check {
 /// (probability of no single-error frame while 20 multi-error frames are collected: < 1e-17).
 /// The result files are requested alone and together; a descending sweep is requested too.
 fn ber_files_cases(_t: Tier) -> Vec<u8> {
-    vec![0, 1, 2, 3, 4]
+    vec![0, 1, 2, 3, 4, 5, 6]
 }
 
 fn check_ber_files(which: &u8, p: &mut Probe) -> Check {
@@ -914,6 +954,22 @@ fn check_ber_files(which: &u8, p: &mut Probe) -> Check {
     std::fs::write(&fa, own_alist(&h, true)).map_err(|e| Fail::new(INCONCLUSIVE, format!("scratch write: {e}")))?;
     let k = 8f64;
     const FE: u64 = 20;
+    if *which >= 5 {
+        // well-formed arguments with which no frame can be processed (the fault shows only once the
+        // simulation runs): a pattern of 5 blocks and an interleaver of 5 columns on 12-bit codewords
+        let mut args = sv(&["ber", &fa, "--output-file", &fo, "--min-ebn0", "4.0", "--max-ebn0", "4.0", "--step-ebn0", "1.0", "--frame-errors", "5", "--max-iter", "5", "--decoder", "Phif64"]);
+        args.extend(sv(if *which == 5 { &["--puncturing", "1,1,1,1,0"] } else { &["--interleaving", "5"] }));
+        let run = run_cli(&args, Duration::from_secs(60))?;
+        p.class("frames-cannot-be-processed");
+        p.nontrivial();
+        if *which == 5 {
+            return expect_failure(&run, &format!("{args:?}"));
+        }
+        // (the interleaver fault is a panic inside the workers, which the unchanged tool reports on stderr
+        // as such: only the exit status is judged)
+        ensure!(run.code != Some(0), "error-exit-status", "{args:?}: exit status 0 although no frame can be interleaved (12 bits in 5 columns); stdout {:?}", &run.stdout[..run.stdout.len().min(200)]);
+        return Ok(());
+    }
     // which files are requested; the direction of the sweep
     let (main, ldpc, descending) = match which {
         0 => (false, true, false),
@@ -1037,8 +1093,15 @@ pub fn property() -> Property {
                 exhaustive: false,
             }),
             Box::new(EnumSub {
+                name: "output-cannot-be-written",
+                rule: "dvbs2, ccsds, ccsds-c2 and peg with valid arguments and the standard output on /dev/full (every write fails): the exit status is not 0 (how the failure is reported is not judged; the unchanged tool panics in println!)",
+                cases: full_stdout_cases,
+                check: check_full_stdout,
+                exhaustive: false,
+            }),
+            Box::new(EnumSub {
                 name: "ber-result-files",
-                rule: "five fixed invocations on a 4 x 12 code with --max-iter 0 (hard decisions), --bch-max-errors 1, --frame-errors 20, at 4 and 5 dB, where frames with exactly one wrong systematic bit are 7-13 times as frequent as frames with more: (LDPC-only file alone, both files, main file alone) ascending, and (LDPC-only file alone, main file alone) as a descending sweep 5.0, 4.5, 4.0 dB with --step-ebn0=-0.5. One line per point in each requested file; main file: exactly 20 frame errors of >= 2 bit errors each; LDPC-only file: more than 20 frame errors and fewer than 2 bit errors per frame error (probability of a correct tool failing this < 1e-17 per line), whether or not the main file is requested; equal frame counts in both files; a descending sweep may instead be refused with a message and a non-zero status",
+                rule: "five fixed invocations on a 4 x 12 code with --max-iter 0 (hard decisions), --bch-max-errors 1, --frame-errors 20, at 4 and 5 dB, where frames with exactly one wrong systematic bit are 7-13 times as frequent as frames with more: (LDPC-only file alone, both files, main file alone) ascending, and (LDPC-only file alone, main file alone) as a descending sweep 5.0, 4.5, 4.0 dB with --step-ebn0=-0.5. One line per point in each requested file; main file: exactly 20 frame errors of >= 2 bit errors each; LDPC-only file: more than 20 frame errors and fewer than 2 bit errors per frame error (probability of a correct tool failing this < 1e-17 per line), whether or not the main file is requested; equal frame counts in both files; a descending sweep may instead be refused with a message and a non-zero status. Two further invocations with well-formed arguments under which no frame can be processed (--puncturing 1,1,1,1,0 or --interleaving 5 on 12-bit codewords): non-zero exit status (for the pattern also a message and no panic)",
                 cases: ber_files_cases,
                 check: check_ber_files,
                 exhaustive: false,
